@@ -162,8 +162,8 @@ func interopSuite() Suite {
 
 func cmdSuite(name string, gen func(r *Rng, i int, tier string) []Op, quick, thorough int, post PostCheck) Suite {
 	return Suite{
-		Name:   name,
-		Post:   post,
+		Name: name,
+		Post: post,
 		// in a child process: a panic in a goroutine the command started cannot be recovered
 		// in-process and would take the whole harness down
 		MkExec: func() Executor { return NewChildExec("cmd") },
